@@ -1,11 +1,12 @@
-CONSTANTS Queries = {1, 2} Modes = {"U", "B", "T"} MaxResp = 3 Retries = 1 WithCleanup = TRUE WithStop = TRUE
+CONSTANTS Queries = {1, 2} Modes = {"U", "B", "T"} NSrvs = {1, 2} MaxResp = 3 Retries = 1 WithCleanup = TRUE WithStop = TRUE FifoTimers = FALSE
   Dev_NoErase = FALSE Dev_AcceptAnyId = FALSE Dev_NoQuestionCheck = FALSE Dev_TimeoutNoPendingCheck = FALSE
   Dev_TruncCompletes = FALSE Dev_DupTruncCompletes = FALSE Dev_StopSkipsPending = FALSE Dev_FallbackTwice = FALSE
-  Dev_CleanupRace = FALSE Dev_RetryOffByOne = FALSE Dev_FallbackDisarms = FALSE
+  Dev_CleanupRace = FALSE Dev_RetryOffByOne = FALSE Dev_FallbackDisarms = FALSE Dev_SharedSessionIds = FALSE
 SPECIFICATION Spec
 INVARIANT TypeOK
 INVARIANT AtMostOnce
 INVARIANT PendingHasTimer
+INVARIANT NoLostResponse
 INVARIANT StopCompletes
 INVARIANT DoneHasCompletion
 INVARIANT Matching
